@@ -107,14 +107,21 @@ pub(crate) fn unbond(
         }
 
         // record the unbonding
+        let mut record = UNBOND
+            .may_load(deps.storage, (&info.sender, &denom, timestamp.nanos()))?
+            .unwrap_or(Bond {
+                asset: Asset {
+                    amount: Uint128::zero(),
+                    ..asset.clone()
+                },
+                weight: Uint128::zero(),
+                timestamp,
+            });
+        record.asset.amount = record.asset.amount.checked_add(asset.amount)?;
         UNBOND.save(
             deps.storage,
             (&info.sender, &denom, timestamp.nanos()),
-            &Bond {
-                asset: asset.clone(),
-                weight: Uint128::zero(),
-                timestamp,
-            },
+            &record,
         )?;
 
         // update global values
